@@ -60,6 +60,19 @@ func compressible(op byte) bool {
 	return op != ref.OpStartup
 }
 
+// chunkReader returns at most n bytes per Read.
+type chunkReader struct {
+	r io.Reader
+	n int
+}
+
+func (c *chunkReader) Read(p []byte) (int, error) {
+	if len(p) > c.n {
+		p = p[:c.n]
+	}
+	return c.r.Read(p)
+}
+
 type countingReader struct {
 	r io.Reader
 	n int
@@ -146,18 +159,20 @@ func paths(c *mon.Ctx, cs gen.Case, id string) {
 			return true
 		}
 		ok := true
-		for _, seekable := range []bool{true, false} {
+		for _, kind := range []string{"seekable", "nonseekable", "chunked"} {
+			seekable := kind == "seekable"
 			src := func() (*countingReader, io.Reader) {
 				br := bytes.NewReader(in)
-				if seekable {
+				switch kind {
+				case "seekable":
 					return &countingReader{r: br}, br
+				case "chunked":
+					// a source that returns short reads, as a socket or a bufio.Reader does
+					return &countingReader{r: &chunkReader{r: br, n: 1 + int(hash(id)%7)}}, nil
 				}
 				return &countingReader{r: struct{ io.Reader }{br}}, nil
 			}
-			sfx := "/nonseekable"
-			if seekable {
-				sfx = "/seekable"
-			}
+			sfx := "/" + kind
 			// P1
 			cr, _ := src()
 			f1, err := codec.DecodeFrame(cr)
@@ -214,6 +229,22 @@ func paths(c *mon.Ctx, cs gen.Case, id string) {
 					err = codec.DiscardBody(h, cr)
 					ok = check("P5-DecodeHeader+DiscardBody"+sfx, nil, cr.n, err) && ok
 				}
+			}
+		}
+		// P1b / P3b: the source has dynamic type *bytes.Buffer (compressors special-case it): the decoder must still
+		// stop at the end of the frame
+		{
+			src := bytes.NewBuffer(append(make([]byte, 0, len(in)+64), in...))
+			f1, err := codec.DecodeFrame(src)
+			ok = check("P1b-DecodeFrame/bytes.Buffer", f1, len(in)-src.Len(), err) && ok
+			src = bytes.NewBuffer(append(make([]byte, 0, len(in)+64), in...))
+			if h, err := codec.DecodeHeader(src); err == nil {
+				body, err := codec.DecodeBody(h, src)
+				var f3 *frame.Frame
+				if err == nil {
+					f3 = &frame.Frame{Header: h, Body: body}
+				}
+				ok = check("P3b-DecodeHeader+DecodeBody/bytes.Buffer", f3, len(in)-src.Len(), err) && ok
 			}
 		}
 		// P2b / P4b: the source is a *bytes.Buffer that the caller re-uses after the raw decode (what a proxy
